@@ -170,6 +170,11 @@ type varyingLookupKey struct {
 	stage    ir.ShaderStage
 }
 
+// reservedPrefixes are the identifier prefixes a user name must not start
+// with: gl_ is reserved by GLSL, the others begin the names this writer
+// invents for resource blocks and immediates.
+var reservedPrefixes = []string{"gl_", "_group", "_immediates_binding_"}
+
 // namer generates unique identifiers, matching Rust naga's Namer.
 // Uses per-name counters (not global) and adds '_' suffix when name ends with digit.
 type namer struct {
@@ -191,6 +196,16 @@ func newNamer() *namer {
 //   - Keywords get trailing '_': "main" → "main_"
 func (n *namer) call(base string) string {
 	escaped := sanitizeName(base)
+
+	// A name starting with a prefix that GLSL reserves (gl_) or that this
+	// writer uses for the names it invents gets a "gen_" prefix
+	// (Rust naga's Namer reserved_prefixes).
+	for _, prefix := range reservedPrefixes {
+		if strings.HasPrefix(escaped, prefix) {
+			escaped = "gen_" + escaped
+			break
+		}
+	}
 
 	count, exists := n.unique[escaped]
 	if exists {
